@@ -143,6 +143,9 @@ def run_behaviour(fx, np, bid, h, variant=0, probe=True):
                 vals = [val(k, common.fmt_dict(tm)) for k in a['ks']]
                 if a['via'] == 'like':
                     adopt(a['y'], Fxp(vals, like=tm))
+                elif a['via'] == 'config':
+                    adopt(a['y'], Fxp(vals, bool(tm.signed), int(tm.n_word), int(tm.n_frac), config=tm.config,
+                                      overflow='wrap' if tm.config.overflow == 'saturate' else 'saturate'))
                 else:
                     Fxp.template = tm                 # the class-level template mechanism
                     try:
